@@ -111,12 +111,29 @@ impl<'a> RegExp<'a> {
     }
 
     fn convert_expr_to_regex(expr: &Expression, config: &RegExpConfig) -> Regex {
+        let mut regex_str = expr.to_string();
+
         if config.is_output_colorized {
             let color_replace_regex = Regex::new("\u{1b}\\[(?:\\d+;\\d+|0)m").unwrap();
-            Regex::new(&color_replace_regex.replace_all(&expr.to_string(), "")).unwrap()
-        } else {
-            Regex::new(&expr.to_string()).unwrap()
+            regex_str = color_replace_regex.replace_all(&regex_str, "").to_string();
         }
+
+        if config.is_non_ascii_char_escaped && config.is_astral_code_point_converted_to_surrogate {
+            // Surrogates are no Unicode scalar values, so the regex crate cannot compile them.
+            // Convert surrogate pairs back to the code points they represent.
+            let surrogate_pair_regex =
+                Regex::new(r"\\u\{(d[89ab][0-9a-f]{2})\}\\u\{(d[c-f][0-9a-f]{2})\}").unwrap();
+            regex_str = surrogate_pair_regex
+                .replace_all(&regex_str, |caps: &regex::Captures| {
+                    let high = u32::from_str_radix(&caps[1], 16).unwrap();
+                    let low = u32::from_str_radix(&caps[2], 16).unwrap();
+                    let code_point = 0x10000 + ((high - 0xd800) << 10) + (low - 0xdc00);
+                    format!("\\u{{{:x}}}", code_point)
+                })
+                .to_string();
+        }
+
+        Regex::new(&regex_str).unwrap()
     }
 
     fn regex_matches_all_test_cases(regex: &Regex, test_cases: &[String]) -> bool {
